@@ -120,6 +120,14 @@ pub struct OnetimeauthState {
     state: OnetimeauthPoly1305State,
 }
 
+#[cfg(dryoc_verif)]
+impl OnetimeauthState {
+    /// Verification hook: number of bytes currently buffered.
+    pub fn verif_buf_len(&self) -> usize {
+        self.state.mac.verif_buf_len()
+    }
+}
+
 /// Generates a random key using
 /// [`copy_randombytes`](crate::rng::copy_randombytes), suitable for use with
 /// [`crypto_onetimeauth_init`] and [`crypto_onetimeauth`]. The key should only
